@@ -79,10 +79,21 @@ func VerifC04Tampered() {
 	// delivery: as an announced head, or as the ancestor of a valid head (then the
 	// link of that head is the claimed address: a re-addressed entry's own address,
 	// or the codec ALIAS of the genuine entry's address)
-	asAncestor := (readdressed || field == 9) && vstub.NdChoice("route", 2) == 1
+	route := 0
+	if readdressed || field == 9 {
+		route = vstub.NdChoice("route", 3)
+	}
+	asAncestor := route != 0
 	if asAncestor {
+		next, refs := []cid.Cid{t.GetHash()}, []cid.Cid{}
+		if route == 2 {
+			// reached through refs only, while the head's next entry is one the replica
+			// ALREADY HOLDS (so that nothing fetched names the tampered entry in next)
+			next, refs = []cid.Cid{honest.GetHash()}, []cid.Cid{t.GetHash()}
+			vstub.Cover("as-refs-ancestor-behind-held-entries")
+		}
 		top, err := entry.CreateEntryWithIO(context.Background(), env.IPFS, w, &entry.Entry{
-			LogID: a.id, Payload: []byte("top"), Next: []cid.Cid{t.GetHash()}, Refs: []cid.Cid{},
+			LogID: a.id, Payload: []byte("top"), Next: next, Refs: refs,
 			Clock: entry.NewLamportClock(w.PublicKey, 9),
 		}, nil, env.IO)
 		if err != nil {
